@@ -133,7 +133,26 @@ def gen_broker_scenario(rng, lazy=False, style=None, malformed=False, limit_orde
         if rng.random() < 0.5:
             ops.append(dict(op="send", order=order(rng.choice(["MarketBuy", "MarketSell"]), s0, float(rng.choice([1, 2, 4])))))
             ops += [dict(op="check"), dict(op="getters")]
-    n_ops = rng.randint(8, 30)
+    elif pat < 0.9:
+        # offsetting resting orders in one symbol (pending nets to exactly 0 while both still rest), a third order
+        # that fills at once, then ticks until the price path — known to the generator — crosses the resting ones:
+        # pending exposure must keep tracking what is accepted but unfilled, entry present or not
+        path = [x for x in prices[s0][1:] if x is not None]
+        if path:
+            k = float(rng.choice([5, 10, 100]))
+            lo = min(a for _, a in path)
+            hi = max(b for b, _ in path)
+            kind = rng.choice(["limits", "limit_stop", "limits"])
+            if kind == "limits":
+                ops.append(dict(op="send", order=order("LimitBuy", s0, k, lo)))
+                ops.append(dict(op="send", order=order("LimitSell", s0, k, hi)))
+            else:
+                ops.append(dict(op="send", order=order("LimitBuy", s0, k, lo)))
+                ops.append(dict(op="send", order=order("StopSell", s0, k, lo)))
+            ops.append(dict(op="send", order=order("MarketBuy", s0, float(rng.choice([1, 5])))))
+            for _ in range(n):
+                ops += [dict(op="check"), dict(op="getters")]
+    n_ops = rng.randint(8, 30) if pat < 0.78 or pat >= 0.9 else rng.randint(0, 6)
     for _ in range(n_ops):
         r = rng.random()
         if r < 0.26:
